@@ -219,6 +219,9 @@ func runCase(r *ev.Run, e *env, c Case, shrink bool) {
 		r.Count("feature:alias:scoped", int64(st.scopedAliases))
 		r.Count("feature:alias:at-inside-name", int64(st.atInName))
 		r.Count("inv:bundled-name-not-found-before-holder-requirements", int64(st.notFoundBefore))
+		r.Count("inv:plain-versions", int64(st.plainVersions))
+		r.Count("inv:plain-versions-with-registries", int64(st.withRegistries))
+		r.Count("inv:earlier-answers-reread", int64(st.heldRechecked))
 		if panicked != "" {
 			r.Violation("C18:inv:panic", "panic while checking the invariants: "+panicked, c)
 		}
